@@ -4,10 +4,25 @@ pub fn allocate<T>(num: usize) -> *mut T {
     let vec = Vec::<T>::with_capacity(num);
     let rptr = vec.as_ptr();
     mem::forget(vec);
+    #[cfg(multiqueue2_verif)]
+    crate::verif_hooks::on_alloc(
+        rptr as usize,
+        num * mem::size_of::<T>(),
+        std::any::type_name::<T>(),
+    );
     rptr as *mut T
 }
 
 pub fn deallocate<T>(tofree: *mut T, num: usize) {
+    #[cfg(multiqueue2_verif)]
+    {
+        let bytes = num * mem::size_of::<T>();
+        if crate::verif_hooks::on_dealloc(tofree as usize, bytes) {
+            // quarantined by the verification runtime: poison instead of freeing
+            unsafe { std::ptr::write_bytes(tofree as *mut u8, 0xfd, bytes) };
+            return;
+        }
+    }
     unsafe {
         Vec::from_raw_parts(tofree, 0, num);
     }
